@@ -23,6 +23,7 @@ import (
 	"io"
 	"math/big"
 	"net"
+	"strings"
 	"sync"
 	"time"
 )
@@ -843,6 +844,39 @@ func (s *Server) onSetClientDH(c net.Conn, body []byte) {
 	s.res.ClientInner = append([]byte(nil), inner...)
 	s.mu.Unlock()
 
+	if f := s.fault("genok.inject"); f != nil {
+		// The server is the DH peer: it already knows the key the client is about to adopt.  BEFORE its answer to
+		// set_client_DH_params it sends a notification (Kind: enc:<chatter kind> sealed with that key as MTProto 1.0
+		// prescribes for server -> client, or plain:<chatter kind>), then a dh_gen_ok whose new_nonce_hash1 is wrong.
+		// To the key exchange the notification is the answer to its third request - a reply of the wrong kind; the
+		// exchange must be abandoned and nothing may be stored, however well the notification decrypts.
+		kind := f.Kind[strings.Index(f.Kind, ":")+1:]
+		body := s.chatterBody("plain-"+kind, 0x0badc0de0badc0de)
+		if body == nil {
+			s.reject("unknown injection " + f.Kind)
+			return
+		}
+		s.mu.Lock()
+		s.nextID += 4
+		id := s.nextID + 3
+		s.mu.Unlock()
+		if strings.HasPrefix(f.Kind, "enc:") {
+			plain := cat(salt, []byte{1, 2, 3, 4, 5, 6, 7, 8}, U64(uint64(id)), U32(1), U32(uint32(len(body))), body)
+			msgKey := sha(plain)[4:20]
+			for len(plain)%16 != 0 {
+				plain = append(plain, 0x6d)
+			}
+			k, iv := kdf(authKey, msgKey, 8)
+			s.logf("send-plain", body, id, "sealed with the key of the unfinished exchange")
+			s.sendFrame(c, cat(kh[12:20], msgKey, igeEnc(k, iv, plain)))
+		} else {
+			s.sendPlain(c, body)
+		}
+		wrong := append([]byte(nil), nh1...)
+		wrong[0] ^= 0x40
+		s.sendPlain(c, cat(U32(CrcDHGenOk), st.ClientNonce, s.serverNonce, wrong))
+		return
+	}
 	if f := s.fault("genok.ctor"); f != nil {
 		s.sendPlain(c, s.altBody(f.Kind[5:], st.ClientNonce, s.serverNonce, st.NewNonce, aux))
 		return
